@@ -1,5 +1,8 @@
 """C11, spec -> code for the collapse DETECTORS.
 
+(Every parameter history is replayed twice: as it is, and embedded at rotating real positions such as [1, 8, 3]
+of a 12-dimensional monitor -- see harness/c11_embed.py.)
+
 TLC (specs/term/CollapseCases.tla) emits every history of a bounded class together with the report the
 specification gives for every configuration of a catalogue (tolerance x window x target/offset x mask in
 every accepted format).  `replay_state` rebuilds the history as a real mystic Monitor and compares
@@ -26,11 +29,13 @@ def _gen(g):
     return None if g == NONE else g
 
 
-def _target(tgt):
+def _target(tgt, emb=None):
     if tgt["mode"] == "none":
         return None
     if tgt["mode"] == "scalar":
         return float(tgt["v"][0])
+    if emb is not None:
+        return emb.target_list(tgt["v"])      # one target per real position (fillers: far away)
     return [float(v) for v in tgt["v"]]
 
 
@@ -50,12 +55,14 @@ def elems(x):
 
 
 # ---- masks in every accepted format ------------------------------------------------------------------
-def py_mask(c):
-    """the python mask object of a catalogue configuration"""
+def py_mask(c, emb=None):
+    """the python mask object of a catalogue configuration (at the real positions of an embedding)"""
     mk = c["mk"]
     if mk["none"]:
         return None
     k = c["k"]
+    if emb is not None and k in ("at", "as"):
+        return emb.idx(mk["idx"]) | (emb.pairs(mk["prs"]) if k == "as" else set())
     if k == "at":
         return set(int(i) for i in mk["idx"])
     if k == "as":
@@ -116,10 +123,10 @@ def monitor(h, npts=None):
     return mon
 
 
-def detector(ct, c):
+def detector(ct, c, emb=None):
     k = c["k"]
     if k == "at":
-        return lambda mon, mask: ct.collapse_at(mon, target=_target(c["tgt"]), tolerance=_tol(c["tol"]),
+        return lambda mon, mask: ct.collapse_at(mon, target=_target(c["tgt"], emb), tolerance=_tol(c["tol"]),
                                                 generations=_gen(c["g"]), mask=mask)
     if k == "as":
         return lambda mon, mask: ct.collapse_as(mon, offset=bool(c["off"]), tolerance=_tol(c["tol"]),
@@ -129,10 +136,10 @@ def detector(ct, c):
     return lambda mon, mask: ct.collapse_position(mon, tolerance=_tol(c["tol"]), generations=_gen(c["g"]), mask=mask)
 
 
-def condition(mt, c, mask):
+def condition(mt, c, mask, emb=None):
     k = c["k"]
     if k == "at":
-        return mt.CollapseAt(target=_target(c["tgt"]), tolerance=_tol(c["tol"]), generations=c["g"], mask=mask)
+        return mt.CollapseAt(target=_target(c["tgt"], emb), tolerance=_tol(c["tol"]), generations=c["g"], mask=mask)
     if k == "as":
         return mt.CollapseAs(offset=bool(c["off"]), tolerance=_tol(c["tol"]), generations=c["g"], mask=mask)
     if k == "wt":
@@ -163,18 +170,53 @@ def describe(c):
 KIND = {"at": "collapse_at", "as": "collapse_as", "wt": "collapse_weight", "ps": "collapse_position"}
 
 
-def replay_state(mods, header, st, solver_every=7):
-    """replay one emitted history; returns (ncases, number of non-trivial cases, violations[(key, detail, what)])"""
+def replay_state(mods, header, st, solver_every=7, emb=None):
+    """replay one emitted history; returns (ncases, number of non-trivial cases, violations[(key, detail, what)]).
+    emb (param mode only): an embedding of the parameters into a larger real dimension (harness/c11_embed.py)"""
     ct, mt, ma, Solver = mods
     warnings.simplefilter("ignore")
     import copy
     h = st["h"]
     npts = (header["p"],) * header["m"] if header["mode"] != "param" else None
-    mon = monitor(h, npts)
-    hkey = str(h)
+    if emb is not None and (emb.identity or header["mode"] != "param"):
+        emb = None
+    mon = monitor(h, npts) if emb is None else monitor(emb.history(h))
     viol, keys, n = [], 0, 0
 
     counts = {}
+
+    def proj(c, got, what="report"):
+        """a real report / mask as elements of the specification; fillers projected away (they may only be reported by
+        the spread tests, which report everything on a window of one record)"""
+        if emb is None:
+            return got
+        if c["k"] == "at":
+            mine, fil = emb.back_idx(got)
+        else:
+            ints = set(e for e in got if not isinstance(e, tuple))
+            mine, f1 = emb.back_idx(ints)
+            prs, f2 = emb.back_pairs(got - ints)
+            mine, fil = mine | prs, f1 | f2
+        if fil and not (what.startswith("mask") and spread(c)):
+            bad(c, "%s names filler parameters %s (real positions; embedded parameters at %s)" % (what, srt(fil), emb.pm),
+                "filler-collapsed", got=srt(got))
+        return mine
+
+    def spread(c):
+        """the tests on the spread over the window (target=None / offset=True) report EVERYTHING on a window of one
+        record, fillers included: under an embedding the fillers are named in the mask of these configurations"""
+        return (c["k"] == "at" and c["tgt"]["mode"] == "none") or (c["k"] == "as" and c["off"])
+
+    def emask(c, mask):
+        if emb is None or not spread(c):
+            return mask
+        return set(mask or ()) | set(emb.fillers)
+
+    def norm(c, exp):
+        """specification elements in the form proj() gives: pairs without orientation under an embedding"""
+        if emb is None or c["k"] != "as":
+            return exp
+        return set(tuple(sorted(e)) if isinstance(e, tuple) else e for e in exp)
 
     def bad(c, what, key, **detail):
         k = "%s:%s" % (KIND[c["k"]], key)
@@ -182,10 +224,13 @@ def replay_state(mods, header, st, solver_every=7):
         if counts[k] > 2:                 # further occurrences in this history are only counted
             return
         d = {"history": h, "npts": npts}
+        if emb is not None:
+            d["embedding"] = repr(emb)
         d.update(describe(c))
         d.update(detail)
         viol.append(("%s:%s" % (KIND[c["k"]], key), d, "%s(%s) on history %s: %s" % (
-            KIND[c["k"]], ", ".join("%s=%s" % kv for kv in describe(c).items() if kv[0] != "detector"), h, what)))
+            KIND[c["k"]], ", ".join("%s=%s" % kv for kv in describe(c).items() if kv[0] != "detector"), h,
+            what + ("" if emb is None else " [parameters embedded at %r]" % (emb,)))))
 
     # ---- definition catalogue (mask=None): the documented tolerance test over the look-back window
     for i, c in enumerate(header["defcat"]):
@@ -194,7 +239,7 @@ def replay_state(mods, header, st, solver_every=7):
         if exp:
             keys += 1
         try:
-            got = report_elems(c, detector(ct, c)(mon, None))
+            got = proj(c, report_elems(c, detector(ct, c, emb)(mon, emask(c, None))))
         except Exception as ex:
             bad(c, "raised %r (specification: %s)" % (ex, srt(exp)), "raises", expected=srt(exp), error=repr(ex))
             continue
@@ -208,15 +253,17 @@ def replay_state(mods, header, st, solver_every=7):
         exp_r, exp_a, exp_c = elems(e["r"]), elems(e["a"]), elems(e["c"])
         if c["k"] == "as":          # the python mask of collapse_as is the union of its single indices and its pairs
             exp_a |= set(int(j) for j in c["mk"]["idx"])
-        mask = py_mask(c)
+        exp_a = norm(c, exp_a)
+        mask = py_mask(c, emb)
         fmt = "none" if mask is None else c["mk"]["fmt"]
+        mask = emask(c, mask)
         n += 1
         if e["x"] > 0 or exp_r:
             keys += 1
-        det = detector(ct, c)
+        det = detector(ct, c, emb)
         try:
             raw = det(mon, copy.deepcopy(mask))
-            got = report_elems(c, raw)
+            got = proj(c, report_elems(c, raw))
         except Exception as ex:
             bad(c, "raised %r (specification: %s)" % (ex, srt(exp_r)), "raises:mask-" + fmt, expected=srt(exp_r), error=repr(ex))
             continue
@@ -228,22 +275,24 @@ def replay_state(mods, header, st, solver_every=7):
             bad(c, "report format %s for a mask of format %s" % (fmt_of(raw), fmt), "report-format:" + fmt, got=repr(raw))
         # the termination condition built with this mask: reports nothing until the history is longer than the window
         try:
-            cond = condition(mt, c, copy.deepcopy(mask))
+            cond = condition(mt, c, copy.deepcopy(mask), emb)
             stub = Stub(mon)
             msg = cond(stub, True)
-            truth = cond(stub)
+            truth = bool(cond(stub))
             col = ct.collapsed(msg) if msg else None
-            got_c = report_elems(c, col[cond.__doc__]) if col else set()
+            got_c = proj(c, report_elems(c, col[cond.__doc__])) if col else set()
+            if emb is not None:       # only fillers reported (a window of one record): the embedded parameters report nothing
+                truth = bool(got_c)
             msg2 = mt.Or(mt.VTR(-1.0, -1.0), cond)(stub, True)
             col2 = ct.collapsed(msg2) if msg2 else None
-            got_c2 = report_elems(c, col2[cond.__doc__]) if col2 else set()
+            got_c2 = proj(c, report_elems(c, col2[cond.__doc__])) if col2 else set()
             if (i + len(h)) % solver_every == 0 and header["mode"] == "param":
-                s = Solver(len(h[0]))
+                s = Solver(len(h[0]) if emb is None else emb.dim)
                 s._stepmon = mon
                 s.SetTermination(cond)
                 col3 = s.Collapsed(info=True)
-                got_c3 = report_elems(c, col3[cond.__doc__]) if col3 else set()
-                if bool(s.Collapsed()) != bool(exp_c):
+                got_c3 = proj(c, report_elems(c, col3[cond.__doc__])) if col3 else set()
+                if emb is None and bool(s.Collapsed()) != bool(exp_c):
                     got_c3 = {"Collapsed() is %s" % s.Collapsed()}
             else:
                 got_c3 = exp_c
@@ -257,10 +306,10 @@ def replay_state(mods, header, st, solver_every=7):
             continue
         # update_mask: the mask grows by exactly what was reported (format kept)
         try:
-            cond = condition(mt, c, copy.deepcopy(mask))
-            new = ma.update_mask(cond, {cond.__doc__: raw}) if got else cond
+            cond = condition(mt, c, copy.deepcopy(mask), emb)
+            new = ma.update_mask(cond, {cond.__doc__: raw}) if raw else cond
             newmask = ma.get_mask(new)
-            got_a = mask_elems(newmask)
+            got_a = proj(c, mask_elems(newmask), "mask after update_mask")
         except Exception as ex:
             bad(c, "update_mask raised %r" % (ex,), "update-mask-raises:" + fmt, error=repr(ex))
             continue
@@ -270,8 +319,8 @@ def replay_state(mods, header, st, solver_every=7):
             continue
         # fed its own output as mask: nothing new (FixedPoint is a TLC-checked invariant of the specification)
         try:
-            again = report_elems(c, det(mon, copy.deepcopy(newmask)))
-            own = report_elems(c, det(mon, copy.deepcopy(raw))) if (mask is None and got) else set()
+            again = proj(c, report_elems(c, det(mon, copy.deepcopy(newmask))))
+            own = proj(c, report_elems(c, det(mon, copy.deepcopy(raw)))) if (mask is None and raw) else set()
         except Exception as ex:
             bad(c, "detector raised %r on the updated mask %r" % (ex, newmask), "refeed-raises:" + fmt, error=repr(ex))
             continue
@@ -284,19 +333,24 @@ def replay_state(mods, header, st, solver_every=7):
 def replay_chunk(args):
     """process-pool entry: replay a list of emitted histories.
     returns (cases, non-trivial cases, written-out violations (<= 3 per class), {class: total count})"""
-    header, states = args
+    header, states = args[0], args[1]
+    embed = int(args[2]) if len(args) > 2 else 0      # k > 0: also replay every k-th history under one (rotating) embedding
     import mystic.collapse as ct, mystic.termination as mt, mystic.mask as ma
     from mystic.solvers import NelderMeadSimplexSolver
+    from harness.c11_embed import maps_for
     n = k = 0
     viol, kept, perkey = [], {}, {}
-    for st in states:
-        a, b, v, cnt = replay_state((ct, mt, ma, NelderMeadSimplexSolver), header, st)
-        n += a
-        k += b
-        for x in v:
-            if kept.get(x[0], 0) < 3:
-                kept[x[0]] = kept.get(x[0], 0) + 1
-                viol.append(x)
-        for key, c in cnt.items():
-            perkey[key] = perkey.get(key, 0) + c
+    embs = maps_for(header["n"])[1:] if (embed and header["mode"] == "param") else []
+    for j, st in enumerate(states):
+        todo = [None] + ([embs[(j // embed + len(st["h"])) % len(embs)]] if (embs and j % embed == 0) else [])
+        for emb in todo:
+            a, b, v, cnt = replay_state((ct, mt, ma, NelderMeadSimplexSolver), header, st, emb=emb)
+            n += a
+            k += b
+            for x in v:
+                if kept.get(x[0], 0) < 3:
+                    kept[x[0]] = kept.get(x[0], 0) + 1
+                    viol.append(x)
+            for key, c in cnt.items():
+                perkey[key] = perkey.get(key, 0) + c
     return n, k, viol, perkey
